@@ -458,6 +458,10 @@ func c09OnPath(c *fw.Case) (o fw.Outcome) {
 		if r.Intn(2) == 0 {
 			dnnS = string(bytes.Repeat([]byte{byte('a' + r.Intn(26))}, pick(r, 1, 2, 30, 63, 98, 99, 1+r.Intn(99)))) // the IE value (length octet + label) is at most 100 octets
 		}
+		if r.Intn(5) == 0 { // the full DNN of TS 23.003 9.1: network identifier + operator identifier (".mncDDD.mccDDD.gprs"), any letter case
+			ni := pick(r, "internet", "ims", "a", string(bytes.Repeat([]byte{'x'}, 1+r.Intn(60))))
+			dnnS = ni + pick(r, ".mnc", ".MNC", ".Mnc") + digits(r, 3) + pick(r, ".mcc", ".MCC") + digits(r, 3) + pick(r, ".gprs", ".GPRS")
+		}
 		reqType := uint8(pick(r, int(nasMessage.ULNASTransportRequestTypeInitialRequest), 1+r.Intn(5)))
 		wantSn := []byte{byte(sn.Sst)}
 		if sn.Sd != "" {
